@@ -8,6 +8,7 @@ NOTIMPL = NotImplemented
 key_str = z3.Function("key_str", z3.StringSort(), SymDict.Key)
 key_pair = z3.Function("key_pair", z3.StringSort(), z3.IntSort(), SymDict.Key)
 key_obj = z3.Function("key_obj", z3.DeclareSort("PyVal"), SymDict.Key)
+key_int = z3.Function("key_int", z3.IntSort(), SymDict.Key)
 is_pair_key = z3.Function("is_pair_key", SymDict.Key, z3.BoolSort())
 
 
@@ -41,12 +42,15 @@ def key_term(it, k):
             return key_pair(a, b)
     if isinstance(k, Opaque):
         return key_obj(k.t)
+    zi = it.zint(k) if not isinstance(k, (tuple, PObj, bool)) else None
+    if zi is not None:
+        return key_int(zi)
     raise Unsupported(f"dictionary key {k!r}")
 
 
 def key_eq(a, b):
     """Equality of two key terms as a formula over their components (injectivity / disjointness applied structurally)."""
-    ctors = (key_str, key_pair, key_obj)
+    ctors = (key_str, key_pair, key_obj, key_int)
     if z3.is_app(a) and z3.is_app(b) and any(a.decl().eq(c) for c in ctors) and any(b.decl().eq(c) for c in ctors):
         if not a.decl().eq(b.decl()):
             return z3.BoolVal(False)
